@@ -34,6 +34,7 @@ pub fn property() -> Property {
             Target::new("roundtrip", bin_targets::t_roundtrip).len(0, 1024).cases(2_400_000, 48_000_000).floors(&[("nontrivial", 0.19), ("format-compared", 0.24)]),
             Target::new("ordered", bin_targets::t_ordered).len(0, 256).cases(1_200_000, 24_000_000).floors(&[("duplicate", 0.08), ("unordered-unique", 0.07), ("ordered-unique", 0.15)]),
             Target::new("decode_bytes", bin_targets::t_decode_bytes).len(0, 1024).cases(2_400_000, 48_000_000).floors(&[("nontrivial", 0.19), ("decoded-ok", 0.10), ("decoded-err", 0.18)]),
+            Target::new("decode_ctx", bin_targets::t_decode_ctx).len(0, 1024).cases(600_000, 12_000_000).floors(&[("nontrivial", 0.15), ("decoded-ok", 0.05), ("decoded-err", 0.15)]),
             Target::new("cursor", bin_targets::t_cursor).len(0, 512).cases(400_000, 8_000_000),
             Target::new("text_roundtrip", text::t_text_roundtrip).len(0, 1024).cases(1_200_000, 24_000_000).floors(&[("nontrivial", 0.22)]),
             Target::new("amount_grammar", text::t_amount_grammar).len(0, 128).cases(800_000, 16_000_000).floors(&[("documented-valid", 0.08), ("documented-invalid", 0.24)]),
